@@ -25,6 +25,7 @@ type toks struct {
 // scribble overwrites every byte slice that was passed to the code under test.
 func (p *toks) scribble() {
 	for _, b := range p.given {
+		b = b[:cap(b)]
 		for i := range b {
 			b[i] ^= 0xA5
 		}
@@ -85,7 +86,15 @@ func (p *toks) hexb() []byte {
 
 // hexbGiven: a byte slice that is handed to the code under test and overwritten afterwards
 func (p *toks) hexbGiven() []byte {
-	b := p.hexb()
+	h := p.hexb()
+	// as a caller's slice often is: the front of a larger buffer whose other bytes are not the
+	// argument (a reslice beyond the length would pick them up)
+	buf := make([]byte, len(h)+8)
+	for i := range buf {
+		buf[i] = 0xC3 ^ byte(i*29)
+	}
+	copy(buf, h)
+	b := buf[:len(h)]
 	p.given = append(p.given, b)
 	return b
 }
